@@ -94,6 +94,11 @@ CLAIMS = {
    ref="§4 C02",
    note="Two reviewed exemptions (jumpThreading's degenerate If→Jump, the ssa:deferstack call) are in the checker with reasons.",
    technique="struct-field vs. method agreement (go/types + SSA) and must-pass-through path rules"),
+ "C01": dict(
+   text="Translation correctness over programs × inputs is not decided (that needs translation validation). Decided are structural necessary conditions for the lifted form to equal the naive form: Operands exposes every operand-holding field (lifting rewrites uses through it); lifting treats as liftable exactly Load, DebugRef and Store-into-the-cell users, with every other and every future kind falling into the unliftable default; renaming deletes only the lifted cell, stores to it and loads/debug refs of it.",
+   ref="§4 C01",
+   note="Weak: builder lowering, φ placement, liveness pruning and block optimisation are outside these rules; no oracle beyond the structural rules.",
+   technique="type-switch case analysis with path-sensitive flag evaluation + guard-edge rules on SSA"),
 }
 
 NOT_APPLICABLE = {
